@@ -519,12 +519,14 @@ Lemma keep_set_status d k s : keep d (set_status d k s).
 Proof. unfold set_status. apply keep_set_node. reflexivity. Qed.
 Lemma keepr_emit r es : keepr (r_d r) (r_d (emit r es)).
 Proof. unfold emit; simpl. apply keepr_emitd. Qed.
-Lemma keepr_handle_error r k kind : keepr (r_d r) (r_d (handle_error r k kind)).
+Lemma keepr_handle_error_gen st r k kind : keepr (r_d r) (r_d (handle_error_gen continue_ st r k kind)).
 Proof.
-  unfold Delayed.handle_error; simpl.
+  unfold Delayed.handle_error_gen; simpl.
   eapply keepr_trans; [apply keep_keepr; apply keep_set_status|].
   apply (keepr_emitd _ [ERemove k; EFailure k kind]).
 Qed.
+Lemma keepr_handle_error r k kind : keepr (r_d r) (r_d (handle_error r k kind)).
+Proof. apply keepr_handle_error_gen. Qed.
 Lemma keepr_refl d : keepr d d.
 Proof. apply keep_keepr, keep_refl. Qed.
 Lemma keepr_get_args r k : keepr (r_d r) (r_d (snd (get_args r k))).
@@ -576,7 +578,7 @@ Proof. unfold start_task; simpl. apply (keepr_emitd _ [EExecute k]). Qed.
 Lemma keepr_process_result r k : keepr (r_d r) (r_d (process_result r k)).
 Proof.
   unfold Delayed.process_result. destruct (t_outcome (task_of r k));
-    try apply keepr_handle_error; [apply keepr_status_emit | apply keepr_refl].
+    try apply keepr_handle_error; try apply keepr_handle_error_gen; [apply keepr_status_emit | apply keepr_refl].
 Qed.
 Lemma keepr_finish r : keepr (r_d r) (r_d (finish r)).
 Proof. unfold finish. apply keepr_emit. Qed.
@@ -1227,15 +1229,18 @@ Qed.
 Lemma final_failure k kind : final_in k (map Ev [ERemove k; EFailure k kind]).
 Proof. unfold final_in. simpl. rewrite N.eqb_refl. reflexivity. Qed.
 
-Lemma good_handle_error r k kind : inv2 (r_d r) -> good (handle_error continue_ r k kind) k.
+Lemma good_handle_error_gen st r k kind : unfinished st = false ->
+  inv2 (r_d r) -> good (handle_error_gen continue_ st r k kind) k.
 Proof.
-  intro I. split.
-  - apply (inv2_status_emit (r_d r) k SFailure [ERemove k; EFailure k kind]); auto. intros _. apply final_failure.
-  - unfold stk, handle_error. simpl.
-    change (node_of (emitd (set_status (r_d r) k SFailure) [Ev (ERemove k); Ev (EFailure k kind)]) k)
-      with (node_of (set_status (r_d r) k SFailure) k).
-    unfold set_status. rewrite node_of_set_same. simpl. discriminate.
+  intros Hst I. split.
+  - apply (inv2_status_emit (r_d r) k st [ERemove k; EFailure k kind]); auto. intros _. apply final_failure.
+  - unfold stk, handle_error_gen. simpl.
+    change (node_of (emitd (set_status (r_d r) k st) [Ev (ERemove k); Ev (EFailure k kind)]) k)
+      with (node_of (set_status (r_d r) k st) k).
+    unfold set_status. rewrite node_of_set_same. simpl. intro E. rewrite E in Hst. discriminate.
 Qed.
+Lemma good_handle_error r k kind : inv2 (r_d r) -> good (handle_error continue_ r k kind) k.
+Proof. apply good_handle_error_gen. reflexivity. Qed.
 
 Lemma good_get_args r k : good r k -> good (snd (get_args continue_ r k)) k.
 Proof.
@@ -1303,7 +1308,8 @@ Qed.
 
 Lemma good_process_result r k : good r k -> good (process_result continue_ r k) k.
 Proof.
-  intros [I S]. unfold process_result. destruct (t_outcome (task_of r k)); try (apply good_handle_error; auto).
+  intros [I S]. unfold process_result. destruct (t_outcome (task_of r k));
+    try (apply good_handle_error; auto); try (apply good_handle_error_gen; auto).
   - apply good_status_emit; auto; try discriminate. intros _.
     unfold final_in. simpl. rewrite N.eqb_refl. reflexivity.
   - split; auto.
